@@ -236,7 +236,10 @@ def compare(raw, ext, obs):
         else:
             norm = " ".join(o["comments"].split())
             eq = lambda lines: norm == " ".join(" ".join(lines).split())
-        if not eq(e["comments"]):
+        # (Lingua's Python extractor has comment handling of its own for Python comments written in the code it is given;
+        # a comment inside the construct is not a ## translator comment, what Lingua does with it is not judged)
+        own = ext == "lingua" and e.get("pycomment") and eq(list(e["comments"]) + [e["pycomment"]])
+        if not eq(e["comments"]) and not own:
             runs = (e.get("stale") or {}).get(ext) or []
             # pending runs of earlier message-less constructs; any non-empty tail of that chain (whole runs) counts as
             # the stale-comment layout, so that the label does not depend on which other findings are fixed
@@ -431,7 +434,7 @@ def plan_strategy(max_items, max_depth):
         "w": st.integers(0, 5), "flt": st.integers(0, 2), "more": st.lists(calls0, max_size=2), "call_first": b,
         "lead_blank": st.integers(0, 2), "wsb": st.sampled_from([0, 0, 1, 2, 3])})
     filt = st.fixed_dictionaries({"k": st.just("filt"), "calls": calls1, "head": calls0, "pf": st.integers(0, 2), "tc": tc,
-                                  "ml": st.booleans(), "nlpipe": st.sampled_from([0, 0, 1, 2])})
+                                  "ml": st.booleans(), "nlpipe": st.sampled_from([0, 0, 1, 2]), "fcmt": st.sampled_from([0, 0, 0, 1, 2])})
     piece = st.fixed_dictionaries({"c": st.one_of(st.none(), callspec, callspec), "brk": st.sampled_from(
         [False, False, True]), "wrap": b})
     pieces = st.lists(piece, min_size=1, max_size=4)
